@@ -145,6 +145,12 @@ def jws_gate(ctx):
                         reg = J.Reg(kind="jws7797" if kind in ("c7797", "j7797") else "jws", allowed=allow)
                     c = J.VCase(base.kind, base.value, base.key, reg, base.detached, f"gate-{via}", base.meta)
                     want = usable(alg, allow, JWS_NAMES, REC_JWS)
+                    # plain RFC 7515 tokens handed to the RFC 7797 entry points (which delegate): same gate
+                    cross = {"compact": "c7797", "flat": "j7797", "general": "j7797"}.get(kind)
+                    c_cross = None
+                    if cross:
+                        reg_x = reg if via == "algorithms" else J.Reg(kind="jws7797", allowed=allow)
+                        c_cross = J.VCase(cross, copy.deepcopy(base.value), base.key, reg_x, None, f"gate-{via}-via-7797-entry", base.meta)
 
                     def expect(case, impl, want=want, alg=alg, allow=allow):
                         if want and impl[0] != "ok":
@@ -156,6 +162,9 @@ def jws_gate(ctx):
                         return None
                     c.expect = expect
                     _batch.append(c)
+                    if c_cross is not None:
+                        c_cross.expect = expect
+                        _batch.append(c_cross)
                     # signing
                     key = J.make_key(kn, private=True)
                     kw = reg.impl_kwargs()
@@ -283,9 +292,9 @@ def jwe_multi_gate(ctx):
                 for verify_all in (True, False):
                     if verify_all and shadowed:
                         continue
-                    for keyarg, kname in ((ks, "keyset"), (keys[0], "first-key")):
-                        if kname == "first-key" and verify_all:
-                            continue    # one key for all recipients: an earlier recipient may fail on the key before a later one is looked at
+                    # (one key for all recipients is not offered: a recipient on another curve / of another size fails on the
+                    # key - with ValueError even in any-recipient mode - before a later entry is looked at)
+                    for keyarg, kname in ((ks, "keyset"),):
                         reg = jwe.JWERegistry(algorithms=allow, verify_all_recipients=verify_all)
                         try:
                             r = jwe.decrypt_json(copy.deepcopy(tokv), keyarg, registry=reg)
